@@ -74,6 +74,7 @@ fn main() {
         "e2e" => suites::e2e(&mut rng, count, &mut out),
         "bcrun" => suites::bcrun(&mut rng, count, &mut out),
         "levelcap" => suites::levelcap(&mut rng, count, &mut out),
+        "bcgen" => suites::bcgen(&mut rng, count, &mut out),
         "irecho" => suites::irecho(&mut rng, count, &mut out),
         "sv" => dsuites::smallvec(&mut rng, count, &mut out),
         "expr" => dsuites::expr(&mut rng, count, &mut out),
